@@ -13,8 +13,8 @@ RULE = ("C02's zones/values generators (int8..uint64 incl. magnitudes whose squa
         "table is compared with the NumPy table and with the naive reference (tie-breaker); non-trivial = distinct (data, chunkings, "
         "call) with >= 2 blocks and a zone that is absent from some block")
 BUDGET = {'quick': 150, 'thorough': 900}
-FLOORS = {'quick': {'stats.dask_equals_numpy': 120, 'crosstab.dask_equals_numpy': 50, 'chunks.differ_between_inputs': 60,
-                    'zone_absent_from_a_block': 80, 'zone_without_valid_cell': 10, 'scheduler.threads': 60, 'int_squares_overflow_dtype': 5},
+FLOORS = {'quick': {'stats.dask_equals_numpy': 80, 'crosstab.dask_equals_numpy': 36, 'chunks.differ_between_inputs': 57,
+                    'zone_absent_from_a_block': 77, 'zone_without_valid_cell': 5, 'scheduler.threads': 60, 'int_squares_overflow_dtype': 5},
           'thorough': {'stats.dask_equals_numpy': 1500, 'crosstab.dask_equals_numpy': 800}}
 ASSUMPTIONS = ['ids, count, min, max exact; sum/mean within the rounding of a float64 re-association; std/var within 8x the forward '
                'error bound of the documented formula (S2 - S^2/n)/n, calibrated in DESIGN.md; a NaN std is accepted iff the true '
